@@ -997,8 +997,22 @@ def rule_typer_fixpoint(repo: Repo) -> List[Ob]:
     rp = "type_inference/finite_fixed_point_typer.py"
     cls = repo.cls("FiniteFixedPointTyper", rp)
     n = 0
+    # methods that run only before the first pass (the initialiser and helpers called from nowhere else)
+    def callees(g):
+        return {c0.func.attr for c0 in walk_no_nested(g.node) if isinstance(c0, ast.Call) and isinstance(c0.func, ast.Attribute) and isinstance(c0.func.value, ast.Name) and c0.func.value.id == "self"}
+    init_only = {"_initialize_state"}
+    grew = True
+    while grew:
+        grew = False
+        for g in cls.all_methods:
+            if g.name in init_only:
+                continue
+            callers_of_g = {h.name for h in cls.all_methods if g.name in callees(h)}
+            if callers_of_g and callers_of_g <= init_only:
+                init_only.add(g.name)
+                grew = True
     for m in cls.all_methods:
-        if m.name == "_initialize_state":
+        if m.name in init_only:
             continue  # runs before the first pass; every Status it creates starts with has_changed=True
         for blk_owner in walk_no_nested(m.node):
             for field in ("body", "orelse"):
@@ -1017,13 +1031,64 @@ def rule_typer_fixpoint(repo: Repo) -> List[Ob]:
                     owner = src(tgt.value)
                     flags = [st for st in blk if isinstance(st, ast.Assign) and any(isinstance(t, ast.Attribute) and t.attr == "has_changed" and src(t.value) == owner for t in st.targets)]
                     if not flags:
-                        obs.append(inconclusive("E-typer-fixpoint", f"{rp}::{m.qualname}::changed-after::{'fail' if isinstance(mu, ast.Assign) else 'grow'}", rp, mu.lineno, m.qualname,
-                                                "no has_changed assignment next to the state change (announced elsewhere?)"))
+                        # announced elsewhere?  anywhere in this method, or by a caller right after the call
+                        def sets_changed(fn_node) -> Optional[bool]:
+                            vals = [st.value for st in walk_no_nested(fn_node) if isinstance(st, ast.Assign) and any(isinstance(t, ast.Attribute) and t.attr == "has_changed" for t in st.targets)]
+                            if not vals:
+                                return None
+                            return any(isinstance(v, ast.Constant) and v.value is True for v in vals) or any(not isinstance(v, ast.Constant) for v in vals)
+                        here = sets_changed(m.node)
+                        callers = [g for g in cls.all_methods if g.node is not m.node and any(isinstance(c0, ast.Call) and call_name(c0) == m.name for c0 in walk_no_nested(g.node))]
+                        def announces_after_call(g) -> bool:
+                            for owner_node in walk_no_nested(g.node):
+                                for fld in ("body", "orelse", "finalbody"):
+                                    blk2 = getattr(owner_node, fld, None)
+                                    if not isinstance(blk2, list):
+                                        continue
+                                    for i2, st2 in enumerate(blk2):
+                                        if any(isinstance(c0, ast.Call) and call_name(c0) == m.name for c0 in ast.walk(st2)) and not isinstance(st2, (ast.If, ast.For, ast.While, ast.With, ast.Try)):
+                                            tail = ast.Module(body=blk2[i2 + 1:], type_ignores=[])
+                                            if sets_changed(tail):
+                                                return True
+                            return False
+                        there = [announces_after_call(g) for g in callers]
+                        keyc = f"{rp}::{m.qualname}::changed-after::{'fail' if isinstance(mu, ast.Assign) else 'grow'}"
+                        if here or any(there):
+                            obs.append(inconclusive("E-typer-fixpoint", keyc, rp, mu.lineno, m.qualname, "has_changed is assigned in this method or a caller, but not next to the state change"))
+                        else:
+                            obs.append(Ob("E-typer-fixpoint", keyc, rp, mu.lineno, m.qualname, False,
+                                          f"`{src(mu)[:50]}` changes the state of a variable and neither {m.name} nor its callers ({', '.join(g.name for g in callers) or 'none'}) set has_changed = True: "
+                                          "the fixed-point test cannot see the change, readers evaluated earlier in the pass keep their value sets and are typed finite"))
                         continue
                     ok = all(isinstance(f.value, ast.Constant) and f.value.value is True for f in flags)
                     obs.append(Ob("E-typer-fixpoint", f"{rp}::{m.qualname}::changed-after::{'fail' if isinstance(mu, ast.Assign) else 'grow'}", rp, mu.lineno, m.qualname, ok,
                                   f"`{src(mu)[:50]}` is announced with has_changed = True, so the fixed-point loop makes another pass" if ok else
                                   f"`{src(mu)[:50]}` changes the state of a variable without has_changed = True: readers of the variable that were evaluated earlier in the pass keep their partial value sets and are typed finite"))
+    # a variable that is still changing when it is taken out of the iteration must be marked failed, not just locked
+    def effects(stmts, depth=0) -> Set[str]:
+        out: Set[str] = set()
+        for st in stmts:
+            for x in ast.walk(st):
+                if isinstance(x, ast.Assign) and isinstance(x.value, ast.Constant) and x.value.value is True:
+                    out |= {t.attr for t in x.targets if isinstance(t, ast.Attribute)}
+                if isinstance(x, ast.Call) and isinstance(x.func, ast.Attribute) and isinstance(x.func.value, ast.Name) and x.func.value.id == "self" and depth < 2:
+                    h = cls.find_method(x.func.attr)
+                    if h is not None:
+                        out |= effects(h.node.body, depth + 1)
+        return out
+    for m in cls.all_methods:
+        for iff in [x for x in walk_no_nested(m.node) if isinstance(x, ast.If)]:
+            t = iff.test
+            if isinstance(t, ast.Attribute) and t.attr == "has_changed" and any(isinstance(a, ast.For) for a in ancestors(iff)):
+                eff = effects(iff.body)
+                if not ({"is_locked", "has_failed"} & eff):
+                    continue
+                keyl = f"{rp}::{m.qualname}::still-changing"
+                if "has_failed" in eff:
+                    obs.append(Ob("E-typer-fixpoint", keyl, rp, iff.lineno, m.qualname, True, "a variable that is still changing when it is taken out of the iteration is marked failed"))
+                else:
+                    obs.append(Ob("E-typer-fixpoint", keyl, rp, iff.lineno, m.qualname, False,
+                                  "a variable whose value set is still growing is only locked, not failed: its incomplete set is handed out as a finite type once the iteration budget is used up"))
     if n < 2:
         raise AnalysisError("typer: state mutations not found")
     # types are extracted only after the fixed point was reached
